@@ -194,7 +194,8 @@ def _worker(args):
         try:
             # the memory layout of the arrays handed to pyttb is a presentation (bind.py): rotate it per behaviour;
             # it is stored in the recorded traces so that a replay reproduces it
-            lay = (b.get("layout") if isinstance(b, dict) and b.get("layout") in bind.LAYOUTS else
+            lay = (os.environ["VERIF_LAYOUT"] if os.environ.get("VERIF_LAYOUT") in bind.LAYOUTS else      # development aid
+                   b.get("layout") if isinstance(b, dict) and b.get("layout") in bind.LAYOUTS else
                    bind.LAYOUTS[hashlib.md5(json.dumps(b, sort_keys=True).encode()).digest()[0] % len(bind.LAYOUTS)])
             dg = hashlib.md5(json.dumps(b, sort_keys=True).encode()).digest()
             dt = (b.get("dtype") if isinstance(b, dict) and b.get("dtype") in ("float", "int") else ("float", "float", "int")[dg[1] % 3])
